@@ -184,10 +184,10 @@ class G:
         e = (op, ('v', 0), ('n', 3)) if op in BIN_NUM else (op, ('v', 0))
         if r.chance(1, 2):
             m.con(0, None, {}, e)
-        elif r.chance(1, 2):
-            m.lcon(('le', e, ('n', 2)))
         else:
-            m.obj('min', {}, e)
+            m.lcon(('le', e, ('n', 2)))
+        if r.chance(1, 3):
+            m.obj('min', {}, e)        # (never only in an objective: objno=0 would drop it)
         return m, op
 
     def model_bigm(self):
